@@ -198,6 +198,11 @@ def render_program(rng, sites, rich, style, layout):
         hdr += PICKY
         tests.insert(0, "def test_00_raises():\n    try:\n        assert [Picky(1)] == snapshot([1])\n    except ValueError:\n        pass\n")
     comment = "# a comment with ünïcödé\n" if layout.get("nonascii") else ""
+    if layout.get("late_import"):
+        # further top-level imports below module-level snapshots and between the tests (e.g. after a sys.path change)
+        mods = mods + ["", "import string as _late1"]
+        if len(tests) > 1:
+            tests = tests[:1] + ["import json as _late2\n"] + tests[1:]
     src = hdr + comment + "\n".join(mods) + ("\n\n" if mods else "") + "\n\n".join(tests)
     if layout.get("no_final_newline"):
         src = src.rstrip("\n")
